@@ -137,6 +137,8 @@ class AsyncIOClient(ABC):
         self.logger.info("State changed. old: %s, new: %s", self._state, new_state)
         if self._state == new_state:
             return  # State hasn't changed, no need to do anything
+        if self._state == State.CLOSED:
+            return  # CLOSED is final
             
         self._state = new_state
         
@@ -182,7 +184,16 @@ class AsyncIOClient(ABC):
                         return
                     
                     await self._connect_impl()            
+                    if self._state == State.CLOSED:
+                        # close() was called while the connection was being established
+                        self.logger.info("Object terminated while connecting. Closing the new connection.")
+                        if self.writer:
+                            self.writer.close()
+                        return
                     await self._update_state(State.CONNECTED)
+                    if self._state == State.CLOSED:
+                        # close() was called from/while the status callback ran
+                        return
                     self.logger.info("Connected to the gateway.")
     
                     # Cancel any existing receive loop task
